@@ -27,7 +27,7 @@ AREAS = {
     "C01": "http_parse", "C06": "http_parse", "C12": "http_parse", "C07": "body_io",
     "C02": "response", "C09": "response", "C19": "response", "C05": "conn",
     "C08": "headermap", "C15": "environ", "C16": "config_merge", "C17": "pidfile",
-    "C20": "privs", "C03": "arbiter", "C10": "arbiter", "C11": "arbiter", "C04": "arbiter",
+    "C20": "privs", "C03": "master_worker", "C10": "master_worker", "C11": "master_worker", "C04": "master_worker",
     "C14": "upgrade", "C13": "gthread", "C18": "recycle",
 }
 
